@@ -553,6 +553,12 @@ func extractXMLDataField(parsedFieldBytes *TagValue, buffer []byte, dataLen int)
 		remBytes = buffer
 		return
 	}
+	if dataLen < 0 || dataLen >= len(buffer)-endIndex-1 {
+		// Also keeps a huge length from overflowing the index below.
+		err = parseError{OrigError: "extractXMLDataField: XmlDataLen exceeds the message in " + string(buffer)}
+		remBytes = buffer
+		return
+	}
 	endIndex += dataLen + 1
 	if endIndex >= len(buffer) {
 		err = parseError{OrigError: "extractXMLDataField: XmlDataLen exceeds the message in " + string(buffer)}
